@@ -16,7 +16,9 @@
 (*   Redo        collectRedo(k): getRedo drains In item by item, GetAll, Spool.Ingest (bulk)  *)
 (*   Spool       Writer (InRT / InBulk -> queueBuffer), Buffer (queueBuffer -> disk FIFO,     *)
 (*               abstract here, concrete in DiskQueue.tla), SlowChan (read-ahead of one)      *)
-(*   Endpoint    mode \in {absent, blackhole, slow, healthy, closing}, changes at any step     *)
+(*   Endpoint    mode \in {absent, blackhole, slow, healthy, closing, paused}, changes at any  *)
+(*               step; "paused" = a healthy endpoint that makes no progress for a while (keeps  *)
+(*               the connection, reads nothing) and then resumes and reads everything          *)
 (*                                                                                            *)
 (* Timing assumptions made explicit (the code relies on them, see conn.go:18-20):             *)
 (*   A1 keepSafe rotation never discards a line the endpoint has not received (the keep       *)
@@ -39,10 +41,11 @@ CONSTANTS N,            \* number of lines the sender hands off
           FixRedoWaits, \* TRUE: getRedo waits for HandleData to have exited (the F10 repair)
           Mutant        \* "" or the name of a deviation (non-vacuity / what a defect would look like)
 
-AllModes == {"absent", "blackhole", "slow", "healthy", "closing"}
+AllModes == {"absent", "blackhole", "slow", "healthy", "closing", "paused"}
 ASSUME InitModes \subseteq AllModes /\ Modes \subseteq AllModes
 ASSUME Mutant \in {"", "BlockingSend", "DialInLoop", "DropNoCount", "RedoSkipDrain", "DropSafeOld",
-                   "NoIngest", "UnspoolWhileSlow", "LoseReadAhead", "SpoolDropNoCount", "DownDropNoCount"}
+                   "NoIngest", "UnspoolWhileSlow", "LoseReadAhead", "SpoolDropNoCount", "DownDropNoCount",
+                   "WriteTimeoutDrop", "DeadDropNoCount"}
 
 VARIABLES
   next, sender,                          \* Sender: next line 1..N+1; "idle" | "waiting"
@@ -67,7 +70,10 @@ vars    == <<senderV, relayV, ctorV, connV, redoV, spoolV, epV, cntV>>
 
 K == 1..MaxConn
 Range(s) == {s[i] : i \in 1..Len(s)}
-Dialable(m) == m \in {"blackhole", "slow", "healthy", "closing"}
+Dialable(m) == m \in {"blackhole", "slow", "healthy", "closing", "paused"}
+\* an endpoint that is healthy with pauses stays in the steady state "healthy": it never closes a
+\* connection and finally reads everything it was sent
+Up(m) == m \in {"healthy", "paused"}
 
 Init ==
   /\ next = 1 /\ sender = "idle"
@@ -80,7 +86,7 @@ Init ==
   /\ wbuf = [k \in K |-> <<>>] /\ kern = [k \in K |-> <<>>] /\ sock = [k \in K |-> "none"]
   /\ redo = [k \in K |-> "none"] /\ redolist = [k \in K |-> <<>>]
   /\ inrt = <<>> /\ sbuf = <<>> /\ disk = <<>> /\ slow = 0
-  /\ mode \in InitModes /\ changes = 0 /\ steady = mode /\ received = {}
+  /\ mode \in InitModes /\ changes = 0 /\ steady = (IF mode = "paused" THEN "healthy" ELSE mode) /\ received = {}
   /\ nSlowConn = 0 /\ nSlowSpool = 0 /\ nDownNoSpool = 0
 
 -----------------------------------------------------------------------------
@@ -100,17 +106,25 @@ RelayTop ==       \* destination.go: loop head up to the select
           THEN IF Spool THEN redo' = [redo EXCEPT ![conn] = "drain"] /\ UNCHANGED ksdone
                         ELSE ksdone' = [ksdone EXCEPT ![conn] = TRUE] /\ UNCHANGED redo     \* clearRedo
           ELSE UNCHANGED <<redo, ksdone>>
+     \* without spool nobody collects the dead connection: what is still queued in its In is gone
+     /\ IF dead /\ ~Spool THEN cin' = [cin EXCEPT ![conn] = <<>>] ELSE UNCHANGED cin
      /\ unspoolOK' = (c2 # 0 /\ Spool /\ (Mutant = "UnspoolWhileSlow" \/ (~slowLast /\ ~slowNow)))
   /\ UNCHANGED <<senderV, slowNow, slowLast, numCU, rhold, ctorV, redolist, spoolV, epV, cntV,
-                 nconn, cin, alive, shut, hd, hdl, ksOld, ksNew, wbuf, kern, sock>>
+                 nconn, alive, shut, hd, hdl, ksOld, ksNew, wbuf, kern, sock>>
 
 SendCase(k) == IF Len(cin[k]) < Q THEN "ok" ELSE IF Mutant = "BlockingSend" THEN "block" ELSE "drop"
-\* nonBlockingSend(l) to connection k; sets cin, nSlowConn, slowNow, rpc, rhold
+\* nonBlockingSend(l) to connection k; sets cin, nSlowConn, slowNow, rpc, rhold.
+\* The connection may have died after the aliveness check of RelayTop (CheckEOF / a failed flush between
+\* RelayTop and the select branch): a line that then finds In full never enters In or keepSafe, so the
+\* redo collector never sees it -- it must be counted like any other slow_conn drop.  Deviation
+\* "DeadDropNoCount": the default branch returns without counting when the connection is not alive.
+DeadNoCount(k) == Mutant = "DeadDropNoCount" /\ ~alive[k]
 DoSend(k, l) ==
   CASE SendCase(k) = "ok"    -> /\ cin' = [cin EXCEPT ![k] = Append(@, l)] /\ rpc' = "top"
                                 /\ UNCHANGED <<nSlowConn, slowNow, rhold>>
-    [] SendCase(k) = "drop"  -> /\ nSlowConn' = IF Mutant = "DropNoCount" THEN nSlowConn ELSE nSlowConn + 1
-                                /\ slowNow' = TRUE /\ rpc' = "top" /\ UNCHANGED <<cin, rhold>>
+    [] SendCase(k) = "drop"  -> /\ nSlowConn' = IF Mutant = "DropNoCount" \/ DeadNoCount(k) THEN nSlowConn ELSE nSlowConn + 1
+                                /\ slowNow' = (IF DeadNoCount(k) THEN slowNow ELSE TRUE)
+                                /\ rpc' = "top" /\ UNCHANGED <<cin, rhold>>
     [] SendCase(k) = "block" -> /\ rpc' = "bsend" /\ rhold' = l /\ UNCHANGED <<cin, nSlowConn, slowNow>>
 
 RelayIn ==        \* case buf := <-dest.In
@@ -220,6 +234,16 @@ HdFlushErr(k) ==
   /\ wbuf' = [wbuf EXCEPT ![k] = <<>>] /\ Close(k) /\ hd' = [hd EXCEPT ![k] = "exit"] /\ hdl' = [hdl EXCEPT ![k] = 0]
   /\ UNCHANGED <<senderV, relayV, ctorV, redoV, spoolV, epV, cntV, nconn, cin, ksOld, ksNew, ksdone, kern>>
 
+\* Deviation "WriteTimeoutDrop" (the code has no write deadline: a writer that finds no room blocks until
+\* the endpoint reads again): a relay-side write timeout fails the blocked flush although the endpoint
+\* never closed; the connection is closed, the unsent io buffer and the line in hand are gone and
+\* (without spool) RelayTop discards what is queued in In -- none of it counted.
+HdWriteTimeout(k) ==
+  /\ Mutant = "WriteTimeoutDrop"
+  /\ hd[k] \in {"idle", "added"} /\ wbuf[k] # <<>> /\ sock[k] = "open" /\ Len(kern[k]) + Len(wbuf[k]) > KB
+  /\ wbuf' = [wbuf EXCEPT ![k] = <<>>] /\ Close(k) /\ hd' = [hd EXCEPT ![k] = "exit"] /\ hdl' = [hdl EXCEPT ![k] = 0]
+  /\ UNCHANGED <<senderV, relayV, ctorV, redoV, spoolV, epV, cntV, nconn, cin, ksOld, ksNew, ksdone, kern>>
+
 HdExit(k) ==      \* case <-c.shutdown
   /\ hd[k] = "idle" /\ shut[k] /\ hd' = [hd EXCEPT ![k] = "exit"]
   /\ UNCHANGED <<senderV, relayV, ctorV, redoV, spoolV, epV, cntV, nconn, cin, alive, shut, hdl, ksOld, ksNew, ksdone, wbuf, kern, sock>>
@@ -233,7 +257,7 @@ KsRotate(k) ==    \* keepSafe.keepClean tick (assumption A1 in the guard)
   /\ ksOld' = [ksOld EXCEPT ![k] = ksNew[k]] /\ ksNew' = [ksNew EXCEPT ![k] = <<>>]
   /\ UNCHANGED <<senderV, relayV, ctorV, redoV, spoolV, epV, cntV, nconn, cin, alive, shut, hd, hdl, ksdone, wbuf, kern, sock>>
 
-ConnWriter(k) == HdRecv(k) \/ HdAdd(k) \/ HdWrite(k) \/ HdFlushOK(k) \/ HdFlushErr(k) \/ HdExit(k)
+ConnWriter(k) == HdRecv(k) \/ HdAdd(k) \/ HdWrite(k) \/ HdFlushOK(k) \/ HdFlushErr(k) \/ HdExit(k) \/ HdWriteTimeout(k)
 
 -----------------------------------------------------------------------------
 (* Redo collector of connection k: collectRedo -> getRedo -> Spool.Ingest     *)
@@ -291,9 +315,14 @@ EpCloseSock(k) == \* "closing": closes an accepted connection mid-stream; unread
   /\ UNCHANGED <<senderV, relayV, ctorV, redoV, spoolV, cntV, mode, received,
                  nconn, cin, alive, shut, hd, hdl, ksOld, ksNew, ksdone, wbuf>>
 
+\* pausing (healthy -> paused) counts as a change, resuming (paused -> healthy) is free (a pause always
+\* may end); neither leaves the steady state "healthy"
 EpChange(m) ==
-  /\ m # mode /\ changes < MaxChanges /\ (m = "absent" => nconn < MaxConn)
-  /\ mode' = m /\ changes' = changes + 1 /\ steady' = "none"
+  /\ m # mode /\ (m = "absent" => nconn < MaxConn)
+  /\ LET resume == mode = "paused" /\ m = "healthy" IN
+       /\ (changes < MaxChanges \/ resume)
+       /\ changes' = IF resume THEN changes ELSE changes + 1
+  /\ mode' = m /\ steady' = IF Up(mode) /\ Up(m) THEN steady ELSE "none"
   /\ IF m = "absent"
        THEN /\ sock' = [k \in K |-> IF sock[k] = "open" THEN "peerclosed" ELSE sock[k]]
             /\ kern' = [k \in K |-> <<>>]
@@ -358,9 +387,10 @@ Quiescent == /\ next > N /\ sender = "idle" /\ rpc # "bsend" /\ inrt = <<>> /\ s
                              /\ (k <= nconn => (alive[k] /\ sock[k] = "open") \/ redo[k] = "done")
 QuiescentBound == Quiescent /\ Spool => LossBound(next - 1, received, nSlowConn, nSlowSpool)
 \* the level-A identities of C06 at quiescence (lines handed before the first connection are, without
-\* spool, counted conn_down_no_spool; the driver hands lines only after it has seen Online)
+\* spool, counted conn_down_no_spool; the driver hands lines only after it has seen Online).  For an
+\* endpoint that was healthy with pauses this is PausedIdentity: handed = received + slow_conn + down
 SteadyHealthy == Quiescent /\ ~Spool /\ steady = "healthy"
-                   => HealthyIdentity(next - 1 - nDownNoSpool, Cardinality(received), nSlowConn)
+                   => PausedIdentity(next - 1, Cardinality(received), nSlowConn, nDownNoSpool)
 SteadyDown == Quiescent /\ ~Spool /\ steady = "absent" => DownIdentity(next - 1, Cardinality(received), nDownNoSpool)
 
 \* C06 steady states: the endpoint has been in one mode since the start
